@@ -14,7 +14,7 @@ NOT_BUILT = 'check not built yet in this round (planned in DESIGN.md §4); not c
 
 PROPS = {}
 # properties whose checks are built and registered in MANIFEST.json
-CLAIMED = ['C05', 'C06', 'C14', 'C15']
+CLAIMED = ['C05', 'C06', 'C14', 'C15', 'C19', 'C21']
 
 
 def prop(pid, **kw):
@@ -184,4 +184,30 @@ def all_obligations():
              defines={'DELTA_J': str(j), 'DELTA_AS': str(as_), 'DELTA_T': str(t)},
              expect=['delta window accepted by the table-driven decoder stays within', 'delta window rejected by the table-driven'],
              canaries=['CANARY delta accept path reached'], replayable=True, stream_replay='delta'))
+
+    # ---------------- process.c I/O primitives
+    POSIX_RW = ['read(): POSIX contract (-1 | 0 | 1..count), stored bytes not modelled', 'write(): POSIX contract (-1 | 1..count for count>0)',
+                'fail*/bailout are _Noreturn (stub: record + assume(0))']
+    A(Ob(name='process.xread', props=['C03', 'C21', 'C19', 'C08'], kind='proof', harness='h_process.c', entry='h_xread',
+         what='xread() returns only with the chunk full or after read() returned 0; every read() targets the next free byte with the whole '
+              'remaining space; bytes delivered == bytes consumed == ispec.total increment; after read() == -1 it reaches failfx(&ispec) and never returns',
+         functions=['xread'], enforce='xread', replace=['read'], loop_contracts=True, flags=['--unwind', '20'],
+         expect=[r'xread\.postcondition', r'read\.precondition', 'loop_invariant_step', 'loop_decreases', 'failfx\\(\\) is reached only after'],
+         assumed=POSIX_RW))
+    A(Ob(name='process.xwrite', props=['C03', 'C21', 'C19', 'C02', 'C08'], kind='proof', harness='h_process.c', entry='h_xwrite',
+         what='xwrite() offers every byte of the buffer to write() in order across short writes; ospec.total += size; fd == -1 only skips the '
+              'write; after write() == -1 it reaches failfx(&ospec) and never returns',
+         functions=['xwrite'], enforce='xwrite', replace=['write'], loop_contracts=True, flags=['--unwind', '20'],
+         expect=[r'xwrite\.postcondition', r'write\.precondition', 'loop_invariant_step', 'loop_decreases'],
+         assumed=POSIX_RW))
+    A(Ob(name='process.work', props=['C19', 'C07', 'C09', 'C03', 'C18'], kind='proof', harness='h_process.c', entry='h_work',
+         what='work(): input starting with BZh1-9 (4 bytes read) always goes to the decompressor with bs100k = digit; anything else is copied '
+              '(exactly the 0-4 bytes read are written first, from the header buffer) iff -f and output is stdout, otherwise failf; '
+              'set_memory_constraints gives the documented slot counts/granularities; nothing is started twice',
+         functions=['work', 'set_memory_constraints'], replace=['xread', 'xwrite', 'schedule', 'copy'], flags=['--unwind', '20'],
+         expect=['work\\(\\): exactly one of', r'schedule\.precondition', r'copy\.precondition', r'xread\.precondition', r'xwrite\.precondition',
+                 'work\\(\\): failf\\(\\) only for'],
+         replayable=True, stream_replay='cdf', trace_vars=['g_work_hdr', 'g_work_vacant'],
+         assumed=['schedule()/copy(): thread-spawning drivers replaced by assumed contracts whose requires clauses are the obligations',
+                  'xread()/xwrite(): own contracts (proved in process.xread / process.xwrite)', 'info(): no-op stub']))
     return obs
